@@ -5,19 +5,33 @@ in random surroundings:
  * Data side: every verdict (all ValidResult values + a validator raising TimeoutError; legacy: nine Python values of both
    truthinesses) x validator latency {at once, before, at (three tie linearisations), after the deadline, never};
  * Interest side: every verdict x ApplicationParameters present x signature {none, DigestSha256 ok, DigestSha256 bad}
-   x parameters-digest correct x route with/without its own validator x no route, in both front-ends.
+   x parameters-digest correct x route with/without its own validator x no route, in both front-ends, x every
+   placement of a replacement of the application-wide validator (legacy app.int_validator) relative to the installation
+   of the routes ("the validator in force" is the one in force when the Interest is dispatched), plus random interleavings.
 Correspondence (model vs real code) and direct oracles of the C05 clauses on the implementation's observations.
 """
 from harness.props import _pipeline as P
 
 RULE = ('Data side: verdict x latency table (6 resp. 9 verdict values x 8 latencies) each embedded in a random history of '
-        '0-3 other Interests; Interest side: 5 (9) verdicts x params x 3 signature classes x digest correctness x 4 route '
-        'situations, full product; plus the C03 random histories with all verdicts. non-trivial = the validator is '
-        'consulted or a gate decision is taken; distinct by history')
+        '0-3 other Interests; Interest side: 5 (9) verdicts x params (absent / present / present-empty) x 3 signature classes x '
+        'digest correctness x 6 names against routes with / without their own validator / no route, full product, repeated '
+        'for every placement of "the application replaces its application-wide Interest validator" (legacy app.int_validator) '
+        'relative to route installation and Interests: never, before the routes, AFTER the routes, between two routes, '
+        'replaced then restored, restored before the routes then replaced, replaced twice (fresh validator object each time), '
+        'across a shutdown with re-installation (9 placements legacy, 4 appv2 in quick / all in thorough); plus random '
+        'interleavings of attach / replace-default / Interest / shutdown with independent Interest attributes; the oracle '
+        'determines per Interest the validator in force from the history before it (extracted Spec.in_force / default_of) and '
+        'checks delivery iff may_deliver, that exactly that validator object was consulted, and consultation before the handler; '
+        'plus the C03 random histories with all verdicts. non-trivial = the validator is consulted or a gate decision is taken; '
+        'distinct by history')
 ASSUMPTIONS = ['validators are harness coroutines (verdict chosen by the history); the parameters digest / DigestSha256 '
                'signature are computed by the real encoder and corrupted by flipping one bit',
                'legacy front-end without a route validator: the application-wide int_validator is the library default '
-               'sha256_digest_checker']
+               'sha256_digest_checker until a setdefault event assigns a harness validator to the documented attribute '
+               'app.int_validator (and again after one restores the saved library default); appv2 has no application-wide '
+               'validator, the event does nothing there',
+               'the application-wide Data validator (legacy app.data_validator, used when express_interest is given '
+               'validator=None) is not exercised: every expressed Interest carries its own validator']
 
 A, AB, ABC, X = P.A, P.AB, P.ABC, P.X
 LATENCIES = ['imm', 'before', 'at0', 'at1', 'at2', 'after', 'never', 'just-before']
@@ -83,71 +97,210 @@ def data_oracle(ctx, fe, h, D, v, lat, r):
 
 
 ROUTES = [(A, True), (AB, False), (X, False)]          # attached prefixes: /a with a validator, /a/b and /x without
+PROBES = [A + (7,), AB + (7,), X, (9,), A, ABC]          # names of the Interests sent at every probe point
+
+# Where the application-wide validator (legacy app.int_validator) is replaced relative to the installation of the routes
+# and to the Interests.  R = attach all routes, Ra = attach /a only, Rb = attach /a/b and /x, D1 = replace the
+# application-wide validator by a (fresh) validator of the application, D0 = put the library default back,
+# P = one Interest per probe name, S = shutdown (the legacy clean-up empties the route table), P1 = one Interest.
+SCHEMES = {
+    'never':            ['R', 'P'],
+    'never+shutdown':   ['R', 'P', 'S', 'P1'],
+    'before-routes':    ['D1', 'R', 'P'],
+    'after-routes':     ['R', 'D1', 'P'],
+    'between-routes':   ['Ra', 'D1', 'Rb', 'P'],
+    'replaced-restored': ['R', 'D1', 'P', 'D0', 'P'],
+    'restored-before-routes': ['D1', 'D0', 'R', 'P', 'D1', 'P'],
+    'replaced-twice':   ['D1', 'R', 'D1', 'P'],
+    'across-shutdown':  ['R', 'D1', 'S', 'P1', 'R', 'P', 'D0', 'P1'],
+}
 
 
-def py_lpm(name):
+def py_lpm(table, name):
     best = None
-    for p, hv in ROUTES:
+    for p, hv in table:
         if tuple(name[:len(p)]) == tuple(p) and (best is None or len(p) > len(best[0])):
             best = (p, hv)
     return best
 
 
-def interest_table(ctx, fe):
-    names = [A + (7,), AB + (7,), X, (9,), A, ABC]
-    k = 0
-    for v in (range(5) if fe == 'v2' else range(len(P.V1_VALUES))):
-        for hp in (False, True, 2):
-            for sig in (0, 1, 2):
-                for dok in (True, False):
-                    if not hp and sig == 0 and not dok:
-                        continue          # a plain Interest has no parameters digest to get wrong
-                    h = [('attach', p, hv, 0) for p, hv in ROUTES]
-                    ks = []
-                    for n in names:
-                        h.append(('interest', k, n, hp, sig, dok, v, 10 + len(ks)))
-                        ks.append((k, n))
-                        k += 1
-                    if ctx.rng.random() < 0.3:
-                        h.append(('shutdown', 100, 0))
-                        h.append(('interest', k, A + (7,), hp, sig, dok, v, 110))
-                        ks.append((k, A + (7,)))
-                        k += 1
-                    m = P.run_model(ctx, fe, h)
-                    r = P.canon_impl(fe, P.run_impl(fe, h))
-                    P.compare(ctx, 'on_interest', fe, h, m, r)
-                    case = {'frontend': fe, 'history': h}
-                    site = ('appv2.NDNApp._on_interest' if fe == 'v2' else 'app.NDNApp._on_interest')
-                    if r['errors'] or r['loop_errors']:
-                        ctx.violation(site, 'internal-error', f'{r["errors"]} {r["loop_errors"]}', case)
-                    called = {kk for _, kk in r['handler_calls']}
-                    shut_seen = False
-                    for kk, n in ks:
-                        after_shutdown = kk == ks[-1][0] and any(e[0] == 'shutdown' for e in h)
-                        route = py_lpm(n)
-                        if after_shutdown and fe == 'v1':
-                            route = None           # the legacy clean-up clears the prefix tree
-                        plain = (not hp) and sig == 0
-                        cls = f'params={int(hp)}:sig={sig}:digest_ok={int(dok)}:validator={route[1] if route else None}:verdict={v}'
-                        if route is None:
-                            if kk in called:
-                                ctx.violation(site, 'handler-without-route', 'handler called for a name without a route', case)
-                            continue
-                        allowed = ctx.call([3, P.fe_num(fe), route[1], [kk, list(n), hp, sig, dok, P.m_verdict(fe, v)]])
-                        if kk in called and not allowed:
-                            ctx.violation(site, 'delivered-unvalidated:' + cls,
-                                          'the handler was called for an Interest the specification does not allow to be delivered', case)
-                        if kk not in called and allowed:
-                            ctx.violation(site, 'dropped-valid:' + cls, 'an acceptable Interest did not reach its handler', case)
-                        if plain and kk in r['ivcalls']:
-                            ctx.violation(site, 'validator-consulted-for-plain', 'a plain Interest was handed to a validator', case)
-                        needs = (hp or sig != 0) if fe == 'v2' else (sig != 0)
-                        if kk in called and needs and route[1] and not r['validated_before'].get(kk, False):
-                            ctx.violation(site, 'handler-before-validator:' + cls,
-                                          'the handler ran before the validator in force was consulted', case)
-                    ctx.case((fe, 'int', v, hp, sig, dok), True,
-                             {'frontend': fe, 'interest': {'params': hp, 'sig': sig, 'digest_ok': dok, 'verdict': v},
-                              'delivered': sorted(called)}, f'{fe}.interest.params={int(hp)}.sig={sig}.dok={int(dok)}')
+def build_gate_history(fe, steps, attrs, k0=0):
+    """History for one placement scheme; attrs = (hp, sig, dok, verdict) of every Interest sent."""
+    hp, sig, dok, v = attrs
+    h, t, k = [], 0, k0
+    table = []              # routes as the application installed them (re-installation of an existing one is skipped)
+    shut = False
+
+    def attach(routes):
+        nonlocal t
+        for p, hv in routes:
+            if all(p != q for q, _ in table):
+                h.append(('attach', p, hv, t))
+                table.append((p, hv))
+    for st in steps:
+        t += 10
+        if st == 'R':
+            attach(ROUTES)
+        elif st == 'Ra':
+            attach(ROUTES[:1])
+        elif st == 'Rb':
+            attach(ROUTES[1:])
+        elif st in ('D1', 'D0'):
+            h.append(('setdefault', st == 'D1', t))
+        elif st == 'S':
+            if not shut:
+                h.append(('shutdown', t, 0))
+                shut = True
+                if fe == 'v1':
+                    table.clear()
+        elif st in ('P', 'P1'):
+            for n in (PROBES if st == 'P' else PROBES[:1]):
+                h.append(('interest', k, n, hp, sig, dok, v, t))
+                k += 1
+                t += 1
+    return h, k
+
+
+def gate_oracle(ctx, fe, h, r, site):
+    """The Interest clauses of C05 on the implementation's observations, for ANY history of attach / setdefault /
+    interest / shutdown events: per Interest, the route (independent Python LPM over the routes installed so far), the
+    validator in force (extracted Spec.in_force / default_of on the history BEFORE the Interest) and Spec.may_deliver."""
+    case = {'frontend': fe, 'history': h}
+    if r['errors'] or r['loop_errors']:
+        ctx.violation(site, 'internal-error', f'{r["errors"]} {r["loop_errors"]}', case)
+    called = {kk for _, kk in r['handler_calls']}
+    who = {}
+    for kk, w in r['ivwho']:
+        who.setdefault(kk, []).append(tuple(w))
+    table, ids = [], {}
+    shut = False
+    last_default = None          # generation of the harness validator currently installed as app.int_validator
+    n_default = 0
+    n_routes = 0
+    for j, ev in enumerate(h):
+        if ev[0] == 'attach':
+            if all(ev[1] != q for q, _ in table):
+                table.append((ev[1], ev[2]))
+                ids[tuple(ev[1])] = n_routes
+                n_routes += 1
+        elif ev[0] == 'setdefault':
+            if ev[1]:
+                last_default = n_default
+                n_default += 1
+            else:
+                last_default = None
+        elif ev[0] == 'shutdown' and not shut:
+            shut = True
+            if fe == 'v1':
+                table, n_routes = [], 0        # the legacy clean-up clears the prefix tree
+        if ev[0] != 'interest':
+            continue
+        _, kk, n, hp, sig, dok, v, _t = ev
+        route = py_lpm(table, n)
+        plain = (not hp) and sig == 0
+        if route is None:
+            if kk in called:
+                ctx.violation(site, 'handler-without-route', 'handler called for a name without a route', case)
+            if kk in who:
+                ctx.violation(site, 'validator-without-route', 'a validator was consulted for a name without a route', case)
+            continue
+        own = bool(ctx.call([4, P.fe_num(fe), route[1], P.m_history(fe, h[:j])]))
+        src = 'route' if route[1] else ('app-default' if own else 'none')
+        cls = f'params={int(hp)}:sig={sig}:digest_ok={int(dok)}:validator={src}:verdict={v}'
+        allowed = ctx.call([3, P.fe_num(fe), own, [kk, list(n), hp, sig, dok, P.m_verdict(fe, v)]])
+        if kk in called and not allowed:
+            ctx.violation(site, 'delivered-unvalidated:' + cls,
+                          'the handler was called for an Interest the specification does not allow to be delivered '
+                          f'(validator in force: {src})', case)
+        if kk not in called and allowed:
+            ctx.violation(site, 'dropped-valid:' + cls, 'an acceptable Interest did not reach its handler '
+                          f'(validator in force: {src})', case)
+        if plain and kk in r['ivcalls']:
+            ctx.violation(site, 'validator-consulted-for-plain', 'a plain Interest was handed to a validator', case)
+        needs = (hp or sig != 0) if fe == 'v2' else (sig != 0)
+        if kk in called and needs and own and not r['validated_before'].get(kk, False):
+            ctx.violation(site, 'handler-before-validator:' + cls,
+                          'the handler ran before the validator in force was consulted', case)
+        # WHICH validator decided: exactly the one in force (the route's own, else the application-wide one as last set)
+        if needs and dok and not plain:
+            want = [('route', ids[tuple(route[0])])] if route[1] else ([('default', last_default)] if own else [])
+            got = who.get(kk, [])
+            if got != want:
+                ctx.violation(site, f'wrong-validator-consulted:in-force={src}:consulted={got[0][0] if got else None}',
+                              f'Interest {kk}: the validator in force is {want or "the library default"}, '
+                              f'the application-supplied validators consulted were {got}', case)
+        ctx.stat(f'{fe}.in-force.{src}')
+
+
+def interest_table(ctx, fe, only=None):
+    site = ('appv2.NDNApp._on_interest' if fe == 'v2' else 'app.NDNApp._on_interest')
+    for scheme, steps in SCHEMES.items():
+        if only is not None and scheme != only:
+            continue
+        if fe == 'v2' and not ctx.thorough and scheme not in ('never', 'never+shutdown', 'after-routes', 'across-shutdown'):
+            continue          # appv2 has no application-wide validator: quick keeps four placements, thorough all
+        for v in (range(5) if fe == 'v2' else range(len(P.V1_VALUES))):
+            for hp in (False, True, 2):
+                for sig in (0, 1, 2):
+                    for dok in (True, False):
+                        if not hp and sig == 0 and not dok:
+                            continue          # a plain Interest has no parameters digest to get wrong
+                        h, _ = build_gate_history(fe, steps, (hp, sig, dok, v))
+                        m = P.run_model(ctx, fe, h)
+                        r = P.canon_impl(fe, P.run_impl(fe, h))
+                        P.compare(ctx, 'on_interest', fe, h, m, r)
+                        gate_oracle(ctx, fe, h, r, site)
+                        ctx.case((fe, 'int', scheme, v, hp, sig, dok), True,
+                                 {'frontend': fe, 'scheme': scheme,
+                                  'interest': {'params': hp, 'sig': sig, 'digest_ok': dok, 'verdict': v},
+                                  'delivered': sorted({kk for _, kk in r['handler_calls']})},
+                                 f'{fe}.interest.{scheme}.params={int(hp)}.sig={sig}.dok={int(dok)}')
+
+
+def rand_gate_history(rng, fe):
+    """Random interleaving of route installation, replacement of the application-wide validator, Interests with
+    independent attributes and at most one shutdown."""
+    h, t, k = [], 0, 0
+    installed = set()
+    shut = False
+    pool = [(A, rng.random() < 0.5), (AB, rng.random() < 0.5), (X, rng.random() < 0.5), (ABC, rng.random() < 0.5)]
+    for _ in range(rng.randint(4, 14)):
+        t += rng.choice((1, 5, 10))
+        a = rng.choice(['attach'] * 3 + ['setdefault'] * 3 + ['interest'] * 6 + ['shutdown'])
+        if a == 'attach':
+            cand = [x for x in pool if x[0] not in installed]
+            if cand:
+                p, hv = rng.choice(cand)
+                installed.add(p)
+                h.append(('attach', p, hv, t))
+        elif a == 'setdefault':
+            h.append(('setdefault', rng.random() < 0.7, t))
+        elif a == 'shutdown':
+            if not shut and rng.random() < 0.4:
+                shut = True
+                h.append(('shutdown', t, 0))
+                if fe == 'v1':
+                    installed.clear()
+        else:
+            hp = rng.choice((False, True, 2))
+            sig = rng.choice((0, 1, 1, 2))
+            dok = True if (not hp and sig == 0) else rng.random() < 0.8
+            v = rng.choice(range(5) if fe == 'v2' else range(len(P.V1_VALUES)))
+            h.append(('interest', k, rng.choice(PROBES), hp, sig, dok, v, t))
+            k += 1
+    return h
+
+
+def random_gate(ctx, fe, n):
+    site = ('appv2.NDNApp._on_interest' if fe == 'v2' else 'app.NDNApp._on_interest')
+    for _ in range(n):
+        h = rand_gate_history(ctx.rng, fe)
+        m = P.run_model(ctx, fe, h)
+        r = P.canon_impl(fe, P.run_impl(fe, h))
+        P.compare(ctx, 'on_interest', fe, h, m, r)
+        gate_oracle(ctx, fe, h, r, site)
+        ctx.case((fe, 'gate', tuple(map(repr, h))), any(e[0] == 'interest' for e in h),
+                 {'frontend': fe, 'history': h, 'delivered': sorted({kk for _, kk in r['handler_calls']})}, f'{fe}.interest.random')
 
 
 def run(ctx):
@@ -158,6 +311,7 @@ def run(ctx):
                      names, ['FAIL', 'TIMEOUT', 'SILENCE', 'PASS', 'ALLOW_BYPASS'], names)
     for fe in ('v2', 'v1'):
         interest_table(ctx, fe)
+        random_gate(ctx, fe, ctx.n(200, 6000))
         reps = ctx.n(3, 60)
         for _ in range(reps):
             for v in P.verdicts(fe):
@@ -174,9 +328,13 @@ def run(ctx):
 
 def replay(ctx, data):
     case = data['case']
-    if any(e[0] in ('attach', 'interest') for e in case['history']):
-        ctx.notes.append('replay of an incoming-Interest case: the full table is re-run')
-        interest_table(ctx, case['frontend'])
+    if any(e[0] in ('attach', 'interest', 'setdefault') for e in case['history']):
+        c = P.unjson_case(case)
+        fe, h = c['frontend'], c['history']
+        m = P.run_model(ctx, fe, h)
+        r = P.canon_impl(fe, P.run_impl(fe, h))
+        P.compare(ctx, 'on_interest', fe, h, m, r)
+        gate_oracle(ctx, fe, h, r, 'appv2.NDNApp._on_interest' if fe == 'v2' else 'app.NDNApp._on_interest')
         return
     c = P.unjson_case(case)
     P.check_history(ctx, c['frontend'], c['history'], 'replay', 'C05')
